@@ -427,55 +427,64 @@ Definition new_frame (k : kind) (self caller value : Z) (code input : list Z) (g
 
 (** result of starting a message call / creation from caller context *)
 Inductive started :=
-| SImmediate (o : outcome) (gasback : Z) (w : world)
+| SImmediate (o : outcome) (gasback : Z) (w : world) (ret : list Z)
 | SFrame (child : frame) (w : world)
 | SUnsupported.
+
+(** precompiled contracts: only the identity function (address 4) is modelled — it returns a copy
+    of its input (EVM specification); the others end the run as [Unsupported].
+    RunPrecompiledContract: not enough gas = out of gas (the caller reverts to its snapshot). *)
+Definition run_precompile (target : Z) (w_ok w_snap : world) (args : list Z) (gas : Z) : started :=
+  if target =? 4 then
+    let cost := words (Z.of_nat (length args)) * g_identity_word + g_identity_base in
+    if gas <? cost then SImmediate (OErr EOog) 0 w_snap [] else SImmediate OOk (gas - cost) w_ok args
+  else SUnsupported.
 
 (** [depth] = number of frames already on the stack (kvm.depth) *)
 Definition start_call (k : kind) (depth : Z) (w : world) (p_self p_caller p_value : Z) (p_static : bool)
            (target : Z) (args : list Z) (gas value : Z) (retoff retsize : Z) : started :=
-  if call_create_depth <? depth then SImmediate (OErr EDepth) gas w else
+  if call_create_depth <? depth then SImmediate (OErr EDepth) gas w [] else
   match k with
   | KCall =>
-    if negb (value =? 0) && (balance w p_self <? value) then SImmediate (OErr EBalance) gas w else
-    if negb (exists_b w target) && negb (is_precompile target) && (value =? 0) then SImmediate OOk gas w else
+    if (value <? 0) || (negb (value =? 0) && (balance w p_self <? value)) then SImmediate (OErr EBalance) gas w [] else
+    if negb (exists_b w target) && negb (is_precompile target) && (value =? 0) then SImmediate OOk gas w [] else
     let w1 := if exists_b w target then w else create_account w target in
     let w2 := transfer w1 p_self target value in
-    if is_precompile target then SUnsupported else
+    if is_precompile target then run_precompile target w2 w args gas else
     let code := code_of w2 target in
-    if is_nil code then SImmediate OOk gas w2
+    if is_nil code then SImmediate OOk gas w2 []
     else SFrame (new_frame KCall target p_self value code args gas p_static w retoff retsize) w2
   | KCallCode =>
-    if balance w p_self <? value then SImmediate (OErr EBalance) gas w else
-    if is_precompile target then SUnsupported else
+    if (value <? 0) || (balance w p_self <? value) then SImmediate (OErr EBalance) gas w [] else
+    if is_precompile target then run_precompile target w w args gas else
     let code := code_of w target in
-    if is_nil code then SImmediate OOk gas w
+    if is_nil code then SImmediate OOk gas w []
     else SFrame (new_frame KCallCode p_self p_self value code args gas p_static w retoff retsize) w
   | KDelegate =>
-    if is_precompile target then SUnsupported else
+    if is_precompile target then run_precompile target w w args gas else
     let code := code_of w target in
-    if is_nil code then SImmediate OOk gas w
+    if is_nil code then SImmediate OOk gas w []
     else SFrame (new_frame KDelegate p_self p_caller p_value code args gas p_static w retoff retsize) w
   | KStatic =>
     let w1 := touch w target in
-    if is_precompile target then SUnsupported else
+    if is_precompile target then run_precompile target w1 w args gas else
     let code := code_of w1 target in
-    if is_nil code then SImmediate OOk gas w1
+    if is_nil code then SImmediate OOk gas w1 []
     else SFrame (new_frame KStatic target p_self 0 code args gas true w retoff retsize) w1
-  | KCreate => SImmediate (OErr EBadOp) gas w
+  | KCreate => SImmediate (OErr EBadOp) gas w []
   end.
 
 Definition start_create (depth : Z) (w : world) (p_self : Z) (p_static : bool) (addr : Z)
            (init : list Z) (gas value : Z) : started :=
-  if call_create_depth <? depth then SImmediate (OErr EDepth) gas w else
-  if balance w p_self <? value then SImmediate (OErr EBalance) gas w else
+  if call_create_depth <? depth then SImmediate (OErr EDepth) gas w [] else
+  if (value <? 0) || (balance w p_self <? value) then SImmediate (OErr EBalance) gas w [] else
   let w1 := set_nonce w p_self (nonce w p_self + 1) in
-  if negb (nonce w1 addr =? 0) || negb (is_nil (code_of w1 addr)) then SImmediate (OErr ECollision) 0 w1 else
+  if negb (nonce w1 addr =? 0) || negb (is_nil (code_of w1 addr)) then SImmediate (OErr ECollision) 0 w1 [] else
   let w2 := set_nonce (create_account w1 addr) addr 1 in
   let w3 := transfer w2 p_self addr value in
   if is_nil init then
     (* Run returns at once on empty code; the (empty) runtime code is deposited *)
-    SImmediate OOk gas (set_code w3 addr [])
+    SImmediate OOk gas (set_code w3 addr []) []
   else SFrame (new_frame KCreate addr p_self value init [] gas p_static w1 0 0) w3.
 
 (** * One step *)
@@ -540,7 +549,7 @@ Definition exec (e : env) (i : instr) (f : frame) (w : world) (rest : list frame
                 | _ => create2_address (f_self f) (nth 3 args 0) init end in
     let p := set_gas (set_stack f tl) (f_gas f - gas) in
     match start_create (Z.of_nat (S (length rest))) w (f_self f) (f_static f) addr init gas value with
-    | SImmediate o gb w' =>
+    | SImmediate o gb w' _ =>
       mk_config (resume_create p (if is_ok o then addr else 0) [] gb :: rest) w' Running
     | SFrame child w' => mk_config (child :: p :: rest) w' Running
     | SUnsupported => mk_config (p :: rest) w Unsupported
@@ -555,9 +564,9 @@ Definition exec (e : env) (i : instr) (f : frame) (w : world) (rest : list frame
     let p := set_stack f tl in
     match start_call k (Z.of_nat (S (length rest))) w (f_self f) (f_caller f) (f_value f) (f_static f)
                      target input gas value (nth 2 r 0) (nth 3 r 0) with
-    | SImmediate o gb w' =>
+    | SImmediate o gb w' iret =>
       let visible := match o with OErr _ => false | _ => true end in
-      mk_config (resume_call p (if is_ok o then 1 else 0) visible [] gb (nth 2 r 0) (nth 3 r 0) :: rest) w' Running
+      mk_config (resume_call p (if is_ok o then 1 else 0) visible iret gb (nth 2 r 0) (nth 3 r 0) :: rest) w' Running
     | SFrame child w' => mk_config (child :: p :: rest) w' Running
     | SUnsupported => mk_config (p :: rest) w Unsupported
     end
@@ -636,9 +645,9 @@ Fixpoint run_n (e : env) (n : nat) (c : config) : config :=
 (** top-level message call / contract creation by an externally owned [origin] *)
 Definition init_call (e : env) (w : world) (target : Z) (input : list Z) (gas value : Z) : config :=
   match start_call KCall 0 w (e_origin e) (e_origin e) 0 false target input gas value 0 0 with
-  | SImmediate o gb w' =>
+  | SImmediate o gb w' iret =>
     match o with
-    | OOk => mk_config [] w' (Final OOk [] gb)
+    | OOk => mk_config [] w' (Final OOk iret gb)
     | _ => mk_config [] w (Final o [] gb)
     end
   | SFrame child w' => mk_config [child] w' Running
@@ -647,7 +656,7 @@ Definition init_call (e : env) (w : world) (target : Z) (input : list Z) (gas va
 Definition init_create (e : env) (w : world) (init : list Z) (gas value : Z) : config :=
   let addr := create_address (e_origin e) (nonce w (e_origin e)) in
   match start_create 0 w (e_origin e) false addr init gas value with
-  | SImmediate o gb w' => mk_config [] w' (Final o [] gb)
+  | SImmediate o gb w' _ => mk_config [] w' (Final o [] gb)
   | SFrame child w' => mk_config [child] w' Running
   | SUnsupported => mk_config [] w Unsupported
   end.
